@@ -158,6 +158,11 @@ func (x *stepCtx) invHolds(s int, granted, closed, transportClosed, hasReader, t
 
 func newStep(maxBuf int, events []int, freeOracles bool, maxFail int) *stepCtx {
 	x := &stepCtx{}
+	// the thorough tier raises the data bounds through engine parameters
+	maxBuf += zzvrt.Param("morebuf", 0)
+	if maxFail > 0 {
+		maxFail += zzvrt.Param("morefail", 0)
+	}
 	role := symRole()
 	x.client = role == ShipRoleClient
 	x.preID = zzvrt.Str("pre.remoteShipID")
